@@ -469,12 +469,18 @@ namespace world
         }
         w->si = std::make_shared<ob::SpaceInformation>(w->ss);
         w->si->setStateValidityChecker(std::make_shared<WorldValidity>(w->si, w.get()));
+        // "late_resolution": the application refines the resolution AFTER the space information was set up (with the
+        // library's default) and leaves the renewed setup to the planner, as Planner::setup() documents
+        const bool late = d.getb("late_resolution");
+        if (w->space == "cmp" || (w->space == "rv" && w->dim > 3))
+            w->ss->registerDefaultProjection(std::make_shared<PosProjection>(w->ss, w.get()));
+        if (late)
+            w->si->setup();
         w->si->setStateValidityCheckingResolution(d.getd("resolution", 0.01));
         if (d.has("count_factor"))
             w->ss->setValidSegmentCountFactor((unsigned)d.geti("count_factor", 1));
-        if (w->space == "cmp" || (w->space == "rv" && w->dim > 3))
-            w->ss->registerDefaultProjection(std::make_shared<PosProjection>(w->ss, w.get()));
-        w->si->setup();
+        if (!late)
+            w->si->setup();
         return w;
     }
 
